@@ -41,10 +41,13 @@ type c20World struct {
 	present map[string]int   // model: key -> value id
 	lastUse map[string]int64 // model: key -> last client use
 	over    map[int]bool     // value ids that were overwritten by a later Set of the same key
+	// lruOpen: keys whose cleanup failed since their last client use. The statement keeps such an entry but does not
+	// say where it stands in the eviction order afterwards (the implementation treats the failure as a use).
+	lruOpen map[string]bool
 }
 
 func newC20(age time.Duration, count int, hooks bool) *c20World {
-	cw := &c20World{age: age, count: count, fail: map[string]bool{}, vals: map[int]*cval{}, keyOf: map[int]string{}, present: map[string]int{}, lastUse: map[string]int64{}, over: map[int]bool{}}
+	cw := &c20World{age: age, count: count, fail: map[string]bool{}, vals: map[int]*cval{}, keyOf: map[int]string{}, present: map[string]int{}, lastUse: map[string]int64{}, over: map[int]bool{}, lruOpen: map[string]bool{}}
 	opts := cache.Opts[string, *cval]{
 		Age:   age,
 		Count: count,
@@ -52,6 +55,7 @@ func newC20(age time.Duration, count int, hooks bool) *c20World {
 			ok := !cw.fail[k]
 			cw.log = append(cw.log, cevent{key: k, id: v.id, ok: ok, at: vrt.NowNanos(), from: cw.cur})
 			if !ok {
+				cw.lruOpen[k] = true
 				return errors.New("cleanup failed")
 			}
 			return nil
@@ -104,6 +108,11 @@ func (cw *c20World) modelString() string {
 			parts = append(parts, "fail:"+k)
 		}
 	}
+	for _, k := range h.SortedKeys(cw.lruOpen) {
+		if cw.lruOpen[k] {
+			parts = append(parts, "open:"+k)
+		}
+	}
 	return strings.Join(parts, ",")
 }
 
@@ -142,6 +151,7 @@ func (cw *c20World) reconcile(logStart int, opName string, agePrune bool, setKey
 		}
 		delete(cw.present, k)
 		delete(cw.lastUse, k)
+		delete(cw.lruOpen, k)
 	}
 	for k := range have {
 		if _, ok := cw.present[k]; !ok {
@@ -160,10 +170,22 @@ func (cw *c20World) reconcile(logStart int, opName string, agePrune bool, setKey
 		}
 		for _, e := range evicted {
 			for _, k := range kept {
-				if !cw.fail[k] && cw.lastUseBefore(k, before) < cw.lastUseBefore(e, before) {
+				if !cw.fail[k] && !cw.lruOpen[k] && !cw.lruOpen[e] && cw.lastUseBefore(k, before) < cw.lastUseBefore(e, before) {
 					vs = append(vs, h.V("lru-first", "eviction-not-lru", "%s: %s was evicted although %s was used less recently and its cleanup succeeds", opName, e, k))
 				}
 			}
+		}
+		// "first": within one pruning the cleanups run in the order of last use (where the uses are at different instants)
+		var prev *cevent
+		for i := logStart; i < len(cw.log); i++ {
+			e := &cw.log[i]
+			if id, ok := before[e.key]; !ok || id != e.id || cw.lruOpen[e.key] {
+				continue
+			}
+			if prev != nil && cw.lastUseBefore(e.key, before) < cw.lastUseBefore(prev.key, before) {
+				vs = append(vs, h.V("lru-first", "cleanup-order-not-lru", "%s: the cleanup of %s ran before that of %s, which was used less recently", opName, prev.key, e.key))
+			}
+			prev = e
 		}
 		nfail := 0
 		for k := range before {
@@ -193,14 +215,17 @@ func c20SeqSpecs(tier string) []*h.SeqSpec {
 		age   time.Duration
 		count int
 	}
-	cfgs := []cfg{{10 * time.Second, 2}, {0, 1}, {10 * time.Second, 0}}
+	cfgs := []cfg{{10 * time.Second, 2}, {0, 1}, {0, 2}, {0, 3}, {10 * time.Second, 0}}
 	if tier == "thorough" {
 		cfgs = []cfg{{0, 0}, {0, 1}, {0, 2}, {0, 3}, {10 * time.Second, 0}, {10 * time.Second, 1}, {10 * time.Second, 2}, {10 * time.Second, 3}}
 	}
-	keys := []string{"a", "b", "c"}
 	var specs []*h.SeqSpec
 	for _, cf := range cfgs {
 		cf := cf
+		keys := []string{"a", "b", "c"}
+		if cf.count >= 3 {
+			keys = append(keys, "d") // the limit has to be exceeded
+		}
 		cwOf := func(w *h.World) *c20World { return w.M.(*c20World) }
 		var ops []h.Op
 		step := func(name string, agePrune bool, setKey string, do func(cw *c20World) []h.Violation) {
@@ -226,6 +251,7 @@ func c20SeqSpecs(tier string) []*h.SeqSpec {
 				v := cw.set(k)
 				cw.present[k] = v.id
 				cw.lastUse[k] = vrt.NowNanos()
+				delete(cw.lruOpen, k)
 				c20UseSnapshot[k] = vrt.NowNanos()
 				return nil
 			})
@@ -241,6 +267,7 @@ func c20SeqSpecs(tier string) []*h.SeqSpec {
 				}
 				if ok {
 					cw.lastUse[k] = vrt.NowNanos()
+					delete(cw.lruOpen, k)
 				}
 				return nil
 			})
@@ -257,6 +284,13 @@ func c20SeqSpecs(tier string) []*h.SeqSpec {
 			})
 		}
 		step("DeleteAll", false, "", func(cw *c20World) []h.Violation { _ = cw.c.DeleteAll(); return nil })
+		if cf.age == 0 {
+			// without an age limit time still has to pass, or all uses happen at the same instant and "least recently" is empty
+			step("advance 1s", false, "", func(cw *c20World) []h.Violation {
+				vrt.Advance(time.Second, false)
+				return nil
+			})
+		}
 		if cf.age > 0 {
 			for _, d := range []time.Duration{cf.age / 2, cf.age, cf.age + cf.age/10 + time.Millisecond} {
 				d := d
